@@ -328,4 +328,34 @@ LawRenameInverse(prod, step) ==
     (\A r1, r2 \in step : (r1[2] = r2[2]) => r1 = r2)
        /\ (\A r \in step : \A i \in DOMAIN prod.outs : CurrentOutputs(prod)[i] = r[2] => \E q \in step : q[1] = r[2])
        => CurrentOutputs(back) = CurrentOutputs(prod)
+
+---------------------------------------------------------------------------
+(* 7. A CONSUMER WITH SEVERAL ARRAY INPUTS (a network: producers <<prod_1, .., prod_n>>, one consumer).      *)
+(*                                                                                                         *)
+(* The consumer's MapSpec has one entry per array input and every entry says how THAT input is taken:      *)
+(* `m[:, j], w[j] -> r[j]` takes a whole column of m (a partial reduction: Array[...]) and ONE element of  *)
+(* w.  validate_consistent_type_annotations walks the edges one by one (`for parameter_name, input_type    *)
+(* in dep.parameter_annotations.items()`) and _axis_is_reduced(f_out, f_in, parameter_name) looks up the   *)
+(* axes of `parameter_name` only -- which is exactly ViaOf(pms, cms, name) above: the entry of `name`.      *)
+(* The edges of the network are the edges of every producer with the consumer; the outcome is decided by   *)
+(* the same rule as for one producer.                                                                      *)
+NetEdges(prods, cons) == UNION {NamedEdges(prods[k], cons) : k \in DOMAIN prods}
+ConstructNet(prods, cons, validate) ==
+    LET vs == {EdgeVerdict(e.p, e.c, e.via) : e \in NetEdges(prods, cons)} IN
+    IF ~validate THEN "accept" ELSE IF "no" \in vs THEN "TypeError" ELSE IF "either" \in vs THEN "either" ELSE "accept"
+
+(* The consumer MapSpec / the consumer reduced to ONE of its inputs: every other entry (sibling) forgotten. *)
+OnlyEntry(ms, name) == [ms EXCEPT !.ins = SelectSeq(ms.ins, LAMBDA a : a.n = name)]
+SoloCons(cons, i)   == [params |-> <<cons.params[i]>>, ms |-> OnlyEntry(cons.ms, cons.params[i].n)]
+
+(* laws: LOCALITY.  How an input is taken (its via) is a matter of its own MapSpec entry: a sliced, indexed *)
+(* or absent SIBLING entry never turns an element-wise edge into a reduction or the other way round; hence  *)
+(* a consumer with several inputs is judged input by input.                                                 *)
+LawViaLocal(pms, cms, name) == ViaOf(pms, cms, name) = ViaOf(pms, OnlyEntry(cms, name), name)
+LawEdgewise(prods, cons)    ==
+    /\ NetEdges(prods, cons) = UNION {NetEdges(prods, SoloCons(cons, i)) : i \in DOMAIN cons.params}
+    /\ \A v \in BOOLEAN :
+          LET solo == {ConstructNet(prods, SoloCons(cons, i), v) : i \in DOMAIN cons.params} IN
+          ConstructNet(prods, cons, v) = IF "TypeError" \in solo THEN "TypeError"
+                                         ELSE IF "either" \in solo THEN "either" ELSE "accept"
 =============================================================================
